@@ -13,6 +13,26 @@ import (
 	"testing"
 )
 
+// addVariants seeds the corpus with every truncation of a valid input, every single-byte deletion, and every
+// byte replaced by 'x', a blank, a line feed and a NUL: the quick tier runs the seed corpus only, so the
+// boundary cases of each hand-written parser are always exercised
+func addVariants(f *testing.F, valid []byte) {
+	f.Add(valid)
+	for i := 0; i <= len(valid); i++ {
+		f.Add(append([]byte{}, valid[:i]...))
+	}
+	for i := 0; i < len(valid); i++ {
+		f.Add(append(append([]byte{}, valid[:i]...), valid[i+1:]...))
+		for _, c := range []byte{'x', ' ', '\n', 0} {
+			if valid[i] != c {
+				v := append([]byte{}, valid...)
+				v[i] = c
+				f.Add(v)
+			}
+		}
+	}
+}
+
 func storeRaw(t testing.TB, root string, id []byte, file []byte) {
 	h := hex.EncodeToString(id)
 	dir := filepath.Join(root, "objects", h[:2])
@@ -56,6 +76,7 @@ func FuzzGetObjectPayload(f *testing.F) {
 	f.Add([]byte("blob 4611686018427387904\x00x"))
 	f.Add([]byte("tree 27\x00100644 a\x00" + "\x11\x11\x11\x11\x11\x11\x11\x11\x11\x11\x11\x11\x11\x11\x11\x11\x11\x11\x11\x11"))
 	f.Add([]byte("commit 10\x00tree zzzz\n"))
+	addVariants(f, []byte("commit 60\x00tree "+"0123456789012345678901234567890123456789"+"\nauthor a <a@b.cc>"))
 	f.Fuzz(func(t *testing.T, payload []byte) {
 		root := t.TempDir()
 		id := sha1.Sum(payload)
@@ -79,6 +100,7 @@ func FuzzGetObjectPayload(f *testing.F) {
 func FuzzNewCommitData(f *testing.F) {
 	f.Add([]byte("tree " + "0123456789012345678901234567890123456789" + "\nauthor a <a@b.cc> 1 +0000\ncommitter a <a@b.cc> 1 -0330\n\nmsg\n"))
 	f.Add([]byte("author x"))
+	addVariants(f, []byte("tree "+"0123456789012345678901234567890123456789"+"\nparent "+"abcdefabcdefabcdefabcdefabcdefabcdefabcd"+"\nauthor a b <a@b.cc> 1 +0000\ncommitter a b <a@b.cc> 1 -0330\n\nm\n\nx\n"))
 	f.Fuzz(func(t *testing.T, data []byte) {
 		o, err := NewObject(CommitObject, data)
 		if err != nil {
@@ -92,6 +114,7 @@ func FuzzTreeData(f *testing.F) {
 	f.Add([]byte("100644 a\x00" + "\x11\x11\x11\x11\x11\x11\x11\x11\x11\x11\x11\x11\x11\x11\x11\x11\x11\x11\x11\x11"))
 	f.Add([]byte("040000 d\x00" + "\x11\x11\x11\x11\x11\x11\x11\x11\x11\x11\x11\x11\x11\x11\x11\x11\x11\x11\x11\x11"))
 	f.Add([]byte("100644"))
+	addVariants(f, []byte("040000 d\x00"+"\x11\x11\x11\x11\x11\x11\x11\x11\x11\x11\x11\x11\x11\x11\x11\x11\x11\x11\x11\x11"+"100644 a b\x00"+"\x22\x22\x22\x22\x22\x22\x22\x22\x22\x22\x22\x22\x22\x22\x22\x22\x22\x22\x22\x22"))
 	f.Fuzz(func(t *testing.T, data []byte) {
 		root := t.TempDir()
 		o, err := NewObject(TreeObject, data)
